@@ -4,12 +4,13 @@
 (*                                                                         *)
 (* Part 1 — the RULE: C++ evaluation of a constant-expression tree in      *)
 (* `int`.  Ev(t) is a record [d, v]: d = "ok" and v the value, or d =      *)
-(* "div0" (a zero divisor is evaluated: the expression has no value, a     *)
-(* tool must report it as unevaluated), or d = "ub" (an evaluated          *)
-(* intermediate leaves the int range, INT_MIN / -1, a shift count outside  *)
-(* 0..31, a negative left operand of <<, a left shift that overflows, a    *)
-(* cast to char / short of a value that type cannot represent: outside the *)
-(* property's domain).  && || ?: evaluate only what C++ evaluates.  All    *)
+(* "div0" / "ovf" (a zero divisor is evaluated, + - * / % leave the int     *)
+(* range: the expression has no value, a tool must report it as            *)
+(* unevaluated), "uns" / "big" (unsigned arithmetic or a literal >= 2^31   *)
+(* is involved and the value is not an int: unevaluated or the compiler's  *)
+(* value), or "ub" (a shift count outside 0..31, a negative left operand   *)
+(* of <<, a left shift that overflows, a cast to char / short of a value   *)
+(* that type cannot represent: no claim).  && || ?: evaluate only what C++ evaluates.  All    *)
 (* arithmetic is guarded with comparisons / division so    *)
 (* that TLC's 32-bit integers never overflow; / and % truncate toward zero *)
 (* (TLA+ \div and % floor).  Bit operations are defined on the two's       *)
@@ -134,29 +135,94 @@ Cast(ty, a) ==
     [] ty = "char" -> IF a >= -128 /\ a <= 127 THEN Ok(a) ELSE UB
     [] ty = "short" -> IF a >= -32768 /\ a <= 32767 THEN Ok(a) ELSE UB
 
-\* combination of already evaluated operands: the first that is not "ok" in C++
-\* evaluation order decides, "ub" winning over "div0" (the expression is outside the domain)
-Worst(x, y) == IF x.d = "ub" \/ y.d = "ub" THEN UB ELSE IF x.d = "div0" \/ y.d = "div0" THEN Div0 ELSE x
+(* Classes of results besides "ok" (a value in int, computed in int):
+     "div0"  a zero divisor is evaluated                      } the expression has NO value: a tool
+     "ovf"   + - * unary- / % leave the int range             } must report it as unevaluated
+     "uns"   an operand or the result of an operation done in UNSIGNED arithmetic (usual arithmetic
+             conversions: one operand has an unsigned type) is negative / does not fit in int
+     "big"   a literal that does not fit in int is evaluated
+             } the compiler computes a value in a wider or unsigned type; outside the value claim, a
+             } tool must report "unevaluated" or exactly the compiler's value
+     "ub"    shifts by a bad count / of a negative value / overflowing, narrowing casts: no claim *)
+Ovf == [d |-> "ovf", v |-> 0]
+Uns == [d |-> "uns", v |-> 0]
+Big == [d |-> "big", v |-> 0]
+Rank(d) == CASE d = "ub" -> 5 [] d = "div0" -> 4 [] d = "ovf" -> 3 [] d = "big" -> 2 [] d = "uns" -> 1 [] OTHER -> 0
+\* combination of evaluated operands that are not both "ok": no claim beats no value beats other type
+Worst(x, y) == IF Rank(x.d) >= Rank(y.d) THEN [d |-> x.d, v |-> 0] ELSE [d |-> y.d, v |-> 0]
 
-BinR(op, x, y) ==      \* x, y result records
+(* Trees:  <<"lit", v>>  <<"ulit", v>> (unsigned-suffixed literal, 0 <= v <= INT_MAX)
+           <<"big", text>> (literal >= 2^31, spelled `text`)
+           <<"un", op, t>>  <<"cast", ty, t>>  <<"bin", op, l, r>>  <<"cond", c, a, b>> *)
+\* big literals of unsigned type (the others have type long): u/U suffix, or hex/octal/binary fitting 32 bits
+BigUnsigned == {"2147483648u", "4294967295u", "0x80000000", "0xffffffff", "4294967295U", "020000000000"}
+
+RECURSIVE Typ(_)
+\* static type of an expression after the integral promotions: TRUE = unsigned int, FALSE = int (or long)
+Typ(t) ==
+  CASE t[1] = "lit"  -> FALSE
+    [] t[1] = "ulit" -> TRUE
+    [] t[1] = "big"  -> t[2] \in BigUnsigned
+    [] t[1] = "un"   -> IF t[2] = "!" THEN FALSE ELSE Typ(t[3])
+    [] t[1] = "cast" -> FALSE
+    [] t[1] = "bin"  -> IF t[2] \in {"<", ">", "<=", ">=", "==", "!=", "&&", "||"} THEN FALSE
+                        ELSE IF t[2] \in {"<<", ">>"} THEN Typ(t[3])
+                        ELSE Typ(t[3]) \/ Typ(t[4])
+    [] t[1] = "cond" -> Typ(t[3]) \/ Typ(t[4])
+
+\* int arithmetic: the overflow of + - * / % is "ovf", everything else undefined stays "ub"
+IntBin(op, a, b) ==
+  LET r == Bin(op, a, b) IN
+  IF r.d = "ub" /\ op \in {"+", "-", "*", "/", "%"} THEN Ovf ELSE r
+
+\* unsigned arithmetic on operands converted to unsigned: exact while everything stays in 0..INT_MAX
+UnsBin(op, a, b) ==
+  IF op \in {"<<", ">>"} THEN
+     \* only the left operand is unsigned-typed; a is >= 0
+     IF b < 0 \/ b > 31 THEN UB
+     ELSE IF op = ">>" THEN Shr(a, b)
+     ELSE IF Shl(a, b).d = "ok" THEN Shl(a, b) ELSE Uns       \* modular, but not an int
+  ELSE IF a < 0 \/ b < 0 THEN Uns
+  ELSE LET r == Bin(op, a, b) IN
+       IF r.d = "ub" THEN Uns                                  \* e.g. 2147483647u + 1
+       ELSE IF r.d = "ok" /\ r.v < 0 THEN Uns                  \* e.g. 1u - 2
+       ELSE r
+
+\* x, y result records; ux, uy the static types of the operand expressions
+BinR(op, x, y, ux, uy) ==
   CASE op = "&&" -> IF x.d # "ok" THEN x ELSE IF x.v = 0 THEN Ok(0)
                     ELSE IF y.d # "ok" THEN y ELSE Ok(B2I(y.v # 0))
     [] op = "||" -> IF x.d # "ok" THEN x ELSE IF x.v # 0 THEN Ok(1)
                     ELSE IF y.d # "ok" THEN y ELSE Ok(B2I(y.v # 0))
-    [] OTHER -> IF x.d = "ok" /\ y.d = "ok" THEN Bin(op, x.v, y.v) ELSE Worst(x, y)
+    [] OTHER -> \* a shift count that is not a value in 0..31: no claim, whatever the left operand is
+                IF op \in {"<<", ">>"} /\ (y.d # "ok" \/ y.v < 0 \/ y.v > 31) THEN UB
+                \* a zero divisor: no value, whatever the dividend is
+                ELSE IF op \in {"/", "%"} /\ y.d = "ok" /\ y.v = 0 THEN (IF x.d = "ub" THEN UB ELSE Div0)
+                ELSE IF x.d # "ok" \/ y.d # "ok" THEN Worst(x, y)
+                ELSE IF (IF op \in {"<<", ">>"} THEN ux ELSE ux \/ uy)
+                       THEN UnsBin(op, x.v, y.v) ELSE IntBin(op, x.v, y.v)
 
-UnR(op, x) == IF x.d = "ok" THEN Un(op, x.v) ELSE x
+UnR(op, x, ux) ==
+  IF x.d # "ok" THEN x
+  ELSE IF ux /\ op \in {"-", "~"} THEN (IF op = "-" /\ x.v = 0 THEN x ELSE Uns)   \* 2^32 - x, 2^32 - 1 - x
+  ELSE IF op = "-" /\ Neg(x.v).d = "ub" THEN Ovf
+  ELSE Un(op, x.v)
 CastR(ty, x) == IF x.d = "ok" THEN Cast(ty, x.v) ELSE x
-CondR(c, x, y) == IF c.d # "ok" THEN c ELSE IF c.v # 0 THEN x ELSE y
+\* the type of ?: is the common type of BOTH branches: a negative value selected next to an unsigned branch
+CondR(c, x, y, ux, uy) ==
+  IF c.d # "ok" THEN c
+  ELSE LET r == IF c.v # 0 THEN x ELSE y IN
+       IF r.d = "ok" /\ (ux \/ uy) /\ r.v < 0 THEN Uns ELSE r
 
-(* Trees:  <<"lit", v>>  <<"un", op, t>>  <<"cast", ty, t>>  <<"bin", op, l, r>>  <<"cond", c, a, b>> *)
 RECURSIVE Ev(_)
 Ev(t) ==
   CASE t[1] = "lit"  -> Ok(t[2])
-    [] t[1] = "un"   -> UnR(t[2], Ev(t[3]))
+    [] t[1] = "ulit" -> Ok(t[2])
+    [] t[1] = "big"  -> Big
+    [] t[1] = "un"   -> UnR(t[2], Ev(t[3]), Typ(t[3]))
     [] t[1] = "cast" -> CastR(t[2], Ev(t[3]))
-    [] t[1] = "bin"  -> BinR(t[2], Ev(t[3]), Ev(t[4]))
-    [] t[1] = "cond" -> CondR(Ev(t[2]), Ev(t[3]), Ev(t[4]))
+    [] t[1] = "bin"  -> BinR(t[2], Ev(t[3]), Ev(t[4]), Typ(t[3]), Typ(t[4]))
+    [] t[1] = "cond" -> CondR(Ev(t[2]), Ev(t[3]), Ev(t[4]), Typ(t[3]), Typ(t[4]))
 
 Defined(t) == Ev(t).d = "ok"
 Eval(t) == Ev(t).v
@@ -184,6 +250,7 @@ PPrimary == 17
 \* precedence of the root of a tree; a negative literal is spelled as unary minus
 TPrec(t) ==
   CASE t[1] = "lit"  -> IF t[2] < 0 THEN PUnary ELSE PPrimary
+    [] t[1] \in {"ulit", "big"} -> PPrimary
     [] t[1] = "un"   -> PUnary
     [] t[1] = "cast" -> PUnary
     [] t[1] = "bin"  -> Prec(t[2])
@@ -196,6 +263,8 @@ RECURSIVE Toks(_)
 Toks(t) ==
   LET Opd(c, min) == IF TPrec(c) < min THEN Par(Toks(c)) ELSE Toks(c) IN
   CASE t[1] = "lit"  -> <<ToString(t[2])>>
+    [] t[1] = "ulit" -> <<ToString(t[2]) \o "u">>
+    [] t[1] = "big"  -> <<t[2]>>
     [] t[1] = "un"   -> <<t[2]>> \o Opd(t[3], PUnary)
     [] t[1] = "cast" -> <<"(", t[2], ")">> \o Opd(t[3], PUnary)
     [] t[1] = "bin"  -> Opd(t[3], Prec(t[2])) \o <<t[2]>> \o Opd(t[4], Prec(t[2]) + 1)
@@ -205,6 +274,8 @@ Toks(t) ==
 RECURSIVE FullToks(_)
 FullToks(t) ==
   CASE t[1] = "lit"  -> IF t[2] < 0 THEN Par(<<ToString(t[2])>>) ELSE <<ToString(t[2])>>
+    [] t[1] = "ulit" -> <<ToString(t[2]) \o "u">>
+    [] t[1] = "big"  -> <<t[2]>>
     [] t[1] = "un"   -> Par(<<t[2]>> \o FullToks(t[3]))
     [] t[1] = "cast" -> Par(<<"(", t[2], ")">> \o FullToks(t[3]))
     [] t[1] = "bin"  -> Par(FullToks(t[3]) \o <<t[2]>> \o FullToks(t[4]))
